@@ -118,7 +118,7 @@ Section Field.
                pose proof (scalar_atom sc w p v Ht Wfit Hv) as A;
                pose proof (atom_tr b _ A) as A';
                rewrite (norm_scalar sc w v Hv);
-               split; [destruct p; try discriminate Sp; apply scalar_roundtrip; try assumption; try reflexivity
+               split; [destruct p; try discriminate Sp; rewrite (list_or_single_atom _ _ A'); apply scalar_roundtrip; try assumption; try reflexivity
                       |destruct (tr b (scalar_to_json sc w p v)); try discriminate A'; discriminate]
              end.
       + apply andb_prop in Wh as [Wh Wrest]. apply andb_prop in Wh as [Wmp Wgrp].
